@@ -65,6 +65,14 @@ var specs = map[string]propSpec{
 	"C05": {Binaries: true, Shards: 11},
 	"C10": {Binaries: true},
 	"C18": {Binaries: true},
+	"C01": {Binaries: true},
+	"C02": {Binaries: true},
+	"C03": {Binaries: true},
+	"C04": {Binaries: true},
+	"C12": {Binaries: true},
+	"C15": {Binaries: true},
+	"C16": {Binaries: true},
+	"C17": {Binaries: true},
 }
 
 func spec(id string) propSpec {
